@@ -27,6 +27,22 @@ CHECKS.update({
          "Trees: depth <= 2, width <= 2, keys {a,b} (thorough depth 3). Object member order is left open (multiset comparison).", "6 C15"),
 })
 
+POOL = "the path pool of harness/pool.go (about 90 paths covering every executor node kind: accessors, wildcards, subscripts, recursive descent, filters incl. nested, arithmetic, predicates as items, all item methods except datetime, variables, literals), lax and strict, on lazily shaped symbolic documents (null, bool, finite float64, json.Number as integer / non-integer / outside float64 range, ASCII strings <= 1 byte, arrays and objects to depth 2) and symbolic variables"
+CHECKS.update({
+ "C05": ("Query, First, Exists, Match and ExistsOrMatch are executed symbolically over " + POOL + ", with and without WithSilent: no Go panic on any path (explicit panics, nil dereference, index/slice bounds, failed type assertions and division by zero are built-in checks of the executor), every error wraps ErrExecution or is NULL from the boolean entry points, ErrInvalid is never returned, every returned float64 is finite, the document and the variables are frozen (any store into them is detected), and every returned container is a sub-value of an input or a keyvalue() triple.",
+         "Bounds as stated (quick: width 1, thorough: width 2, strings 2 bytes). Datetime methods are not in the pool (time.Parse is stdlib; C17/C18 not claimed), so the known ErrInvalid from comparing a datetime with a non-datetime is outside this check. regexp matching and math.Mod are uninterpreted/contract stubs; strconv.ParseFloat is interpreted from its real source for symbolic strings.", "6 C05"),
+ "C06": ("The five entry points are run on identical symbolic inputs over " + POOL + " and related: First = head of Query with the same error class; Exists agrees with the emptiness of a successful Query, never answers true when the complete evaluation yields nothing, and in strict mode never hides an error Query reports; Match maps a sole boolean / sole null / anything else to (b,nil) / NULL / the single-boolean error (NULL when silent); ExistsOrMatch dispatches on IsPredicate.",
+         "Known finding listed: in lax mode a unary +/- over a non-numeric item answers Exists = true (pinned by the repository's own TestExecUnaryMathExpr/nan). Object member order is left open (First is not compared for paths that iterate members).", "6 C06"),
+ "C08": ("Each of Query, First, Exists and Match is run with and without WithSilent on identical symbolic inputs over " + POOL + ": the silent run never returns ErrVerbose, equals the verbose run when that succeeds, returns no error (Query/First) or NULL-or-answer (Exists/Match) where the verbose run fails suppressibly, and returns non-suppressible errors unchanged; in addition 13 paths that evaluate a filter or predicate before an erroring step are compared with the stateless reference evaluator for their error class (the save/restore of the verbose flag).",
+         "Non-suppressible errors reachable in the pool: unknown variable, .double() of an unparsable string; TZ casts and .datetime(template) are not in the pool. Cancellation is C20.", "6 C08"),
+ "C09": ("For every chain of 2 (thorough 3) steps from 15 step kinds and every split point, Query(P S) is compared with the concatenation over Query(P) of Query($ S, x) including where the first failure falls; $v S is compared with $ S on the same value; and 10 paths that use @, last or $ after a nested filter / nested subscript are compared with a reference evaluator whose environment is passed by value.",
+         "Steps following .** in strict mode are excluded, as the property says; keyvalue() is not among the steps (ids depend on addresses). Documents to depth 2 (thorough 3), width 2, keys {a,b}.", "6 C09"),
+ "C10": ("For 5 prefix paths x 16 conditions (comparisons, exists, starts with, like_regex, connectives, is unknown, arithmetic, nested filter, methods) the result of P ? (C) is compared with the items of P (unwrapped one level in lax mode) for which the predicate check expression C[@:=$] returns true: same items, same order, same objects (identity) or equal scalars; a suppressible error inside C drops the item, a non-suppressible one aborts; in strict mode consecutive filters equal the filter on the conjunction.",
+         "Quick: 3 prefixes; `$.**{1}` as prefix only in lax mode (below .** strict mode skips structural errors inside the condition). like_regex matching is an uninterpreted function (same function on both sides of the relation).", "6 C10"),
+ "C20": ("The context is a harness type whose Done() counts polls and reports done from the (k+1)-th poll on, k a symbolic integer in 0..64, so the solver splits on every poll site: for every pool path and 18 paths through the constructs that consume (status, error) pairs, lax and strict, silent and verbose, Canceled and DeadlineExceeded, all four entry points, a cancellation observed at any poll yields an error wrapping ErrExecution and the cause, not ErrVerbose, not NULL, with no items, and at most 2 further polls.",
+         "Cancellation is observed only through Done() polls of the executor (as the property's mechanism says); k <= 64 covers every poll of the paths and documents in the bound.", "6 C20"),
+})
+
 NA = {}
 
 def main():
